@@ -266,6 +266,13 @@ func judge(args, real, drv json.RawMessage) *core.Verdict {
 	case d.Panic != nil:
 		return core.Disagree("model predicts a panic at " + *d.Panic + ", the real pipeline returned normally")
 	case r.Err != nil && d.Err != nil:
+		if *r.Err != "" && *r.Err != *d.Err && orderDependentFailure(args, *r.Err, *d.Err) {
+			// several services fail inside ApplyExtends' loop over the services map (a missing base, a base file that does
+			// not interpolate, a merge that fails): the real code reports whichever Go's map iteration meets first, the
+			// model the first in list order.  Both agree that the load fails; which failure is named is not decided by
+			// the input (DESIGN §15.9) — a counted skip, never a disagreement.
+			return core.Skip("several services fail under extends: the failure reported depends on Go's map iteration order")
+		}
 		if *r.Err != "" && *r.Err != *d.Err {
 			return core.Disagree(fmt.Sprintf("both fail, at different stages: real %q (%s), model %q", *r.Err, clip(r.Text), *d.Err))
 		}
@@ -281,6 +288,21 @@ func judge(args, real, drv json.RawMessage) *core.Verdict {
 		return core.Disagree("both load, different models")
 	}
 	return nil
+}
+
+// orderDependentFailure: extends is on and both failures belong to the per-service loop of ApplyExtends (the nested load of
+// a base file interpolates and merges), so more than one service may fail and the map order picks the one reported.
+func orderDependentFailure(args json.RawMessage, realStage, modelStage string) bool {
+	var a struct {
+		Opts struct {
+			Extends bool `json:"extends"`
+		} `json:"opts"`
+	}
+	if json.Unmarshal(args, &a) != nil || !a.Opts.Extends {
+		return false
+	}
+	loop := map[string]bool{"extends": true, "interpolate": true, "merge": true}
+	return loop[realStage] && loop[modelStage]
 }
 
 func clip(s string) string {
